@@ -64,8 +64,7 @@ theorem initLG_accepts_iff (p : BlakeInitLG.P) :
 
 /-- pair (λ, G): the constructor returns or raises `ValueError`, nothing else -/
 theorem initLG_total (p : BlakeInitLG.P) : BlakeInitLG.outcome p = .ok ∨ BlakeInitLG.outcome p = .raise "ValueError" := by
-  simp only [BlakeInitLG.outcome]
-  split_ifs <;> simp
+  epv_ok_or_valueError
 
 theorem initLG_raise (p : BlakeInitLG.P) (h : BlakeInitLG.outcome p ≠ .ok) : BlakeInitLG.outcome p = .raise "ValueError" :=
   (initLG_total p).resolve_left h
@@ -126,8 +125,7 @@ theorem initLE_accepts_iff (p : BlakeInitLE.P) :
 
 /-- pair (λ, E): the constructor returns or raises `ValueError`, nothing else -/
 theorem initLE_total (p : BlakeInitLE.P) : BlakeInitLE.outcome p = .ok ∨ BlakeInitLE.outcome p = .raise "ValueError" := by
-  simp only [BlakeInitLE.outcome]
-  split_ifs <;> simp
+  epv_ok_or_valueError
 
 theorem initLE_raise (p : BlakeInitLE.P) (h : BlakeInitLE.outcome p ≠ .ok) : BlakeInitLE.outcome p = .raise "ValueError" :=
   (initLE_total p).resolve_left h
@@ -193,8 +191,7 @@ theorem initLNu_accepts_iff (p : BlakeInitLNu.P) :
 /-- pair (λ, ν): the constructor returns or raises `ValueError`, nothing else (in exact arithmetic; at ν = 0 Python divides by zero first:
 see `EPV.C15.finding_modLNu_division_by_zero`) -/
 theorem initLNu_total (p : BlakeInitLNu.P) : BlakeInitLNu.outcome p = .ok ∨ BlakeInitLNu.outcome p = .raise "ValueError" := by
-  simp only [BlakeInitLNu.outcome]
-  split_ifs <;> simp
+  epv_ok_or_valueError
 
 theorem initLNu_raise (p : BlakeInitLNu.P) (hν : p.poisson_ratio ≠ 0) (h : BlakeInitLNu.outcome p ≠ .ok) : BlakeInitLNu.outcome p = .raise "ValueError" :=
   (initLNu_total p).resolve_left h
@@ -249,8 +246,7 @@ theorem initLK_accepts_iff (p : BlakeInitLK.P) :
 
 /-- pair (λ, K): the constructor returns or raises `ValueError`, nothing else -/
 theorem initLK_total (p : BlakeInitLK.P) : BlakeInitLK.outcome p = .ok ∨ BlakeInitLK.outcome p = .raise "ValueError" := by
-  simp only [BlakeInitLK.outcome]
-  split_ifs <;> simp
+  epv_ok_or_valueError
 
 theorem initLK_raise (p : BlakeInitLK.P) (h : BlakeInitLK.outcome p ≠ .ok) : BlakeInitLK.outcome p = .raise "ValueError" :=
   (initLK_total p).resolve_left h
@@ -301,8 +297,7 @@ theorem initLM_accepts_iff (p : BlakeInitLM.P) :
 
 /-- pair (λ, M): the constructor returns or raises `ValueError`, nothing else -/
 theorem initLM_total (p : BlakeInitLM.P) : BlakeInitLM.outcome p = .ok ∨ BlakeInitLM.outcome p = .raise "ValueError" := by
-  simp only [BlakeInitLM.outcome]
-  split_ifs <;> simp
+  epv_ok_or_valueError
 
 theorem initLM_raise (p : BlakeInitLM.P) (h : BlakeInitLM.outcome p ≠ .ok) : BlakeInitLM.outcome p = .raise "ValueError" :=
   (initLM_total p).resolve_left h
